@@ -30,7 +30,7 @@ RULE = ("flows of every routing kind (region cap, Seed, EventQueueGet, temporary
         "response events through MITMProxyEventManager over pickling queues, with ONE deviating behaviour per run placed at each "
         "injection point: addon handle_http_request / handle_http_response hook of 3 addons {raise, take and never release, take "
         "and release after k further events, take + release twice, take twice, inject response, rewrite URL, set metadata, close "
-        "the session before releasing}, session / region http_message_handler subscriber raising, message logger raising, "
+        "the session before releasing, take and release inside the hook, attribute to an owner without a cap name}, session / region http_message_handler subscriber raising, message logger raising, "
         "malformed Seed / EventQueueGet body; optionally an abandoned time-limited taking waiter on the session's HTTP handler whose limit has passed.  Quick = every (flow kind x injection point x behaviour); thorough = pairs + random "
         "programs.  Plus the get_state/from_state law on generated flows and the proxy-side callback pump with corrupt states.  "
         "Non-trivial = run with a deviating behaviour; distinct by program.")
